@@ -80,6 +80,12 @@ def history(args):
             cur = sorted(set(spell(r) for r in rnd.sample(sorted(cands), rnd.randint(2, len(cands) - 2))))
             if rnd.random() < 0.1:
                 cur.append("")
+            # the same path listed more than once (two producers declaring one output directory), in any order
+            ndup = rnd.choice([0, 0, 1, 2, 3])
+            for _ in range(ndup):
+                cur.append(rnd.choice(cur))
+            if ndup or rnd.random() < 0.3:
+                rnd.shuffle(cur)
             roots = [] if rnd.random() < 0.35 else rnd.sample(roots_pool, rnd.randint(1, 2))
             if roots:
                 res["roots_cases"] += 1
@@ -202,7 +208,7 @@ def run(tier, replay):
         chk.cov["predicate"] = pred
         chk.cov["histories"] = len(results)
         chk.cov["rule"] = ("end to end: histories of 4-6 builds (new process each, BuildSystemFrontend client with a logging FileSystem wrapper) of one stale-file-removal command whose "
-                           "expectedOutputs and roots lists change every build; paths absolute/relative/with doubled separators or ./, inside roots, sharing a name prefix with a root, outside, "
+                           "expectedOutputs and roots lists change every build (lists may name the same path several times, in any order); paths absolute/relative/with doubled separators or ./, inside roots, sharing a name prefix with a root, outside, "
                            "non-empty directories, symlinks to files and directories outside; safety: every remove() call and every difference of a whole-sandbox snapshot must lie in "
                            "(previous list minus current list) restricted by the roots under the liberal reading; completeness: every such path under the conservative reading is gone; "
                            "plus the predicate band test of checks/c14_pred.py")
